@@ -7,8 +7,9 @@ open Lean IQE.Engine IQE.Engine.CliOutput
 namespace Driver.C40
 
 /-- Switches of the findings that are still open in /repo: the model K is run against.
-    After the `fix:` commit this is `Dev.fixed`. -/
-def current : Dev := Dev.legacy
+    C40-F1..F5 were repaired by /repo commit 18209de (`fix: CLI CSV output quotes CR and header names; JSON output
+    escapes …`), so no switch is on any more; output that does not read back is a VIOLATION again. -/
+def current : Dev := Dev.fixed
 
 /-- finding id ↦ switch (a function that turns exactly that switch on) -/
 def csvFindings : List (String × (Dev → Dev)) :=
